@@ -617,12 +617,15 @@ func (r *TypeClassSummonContext) lookupTypeClassInstanceTypePkg(ctx CurrentConte
 
 			ti := metafp.GetTypeInfo(obj.Type())
 			rhsType := ti.ResultType()
-			if rhsType.IsInstanceOf(req.TypeClass) {
+			// unify the instance with the required type (fills the type-parameter mapping: without
+			// it a generic instance function was printed with its own type parameter names)
+			checked := option.FlatMap(metafp.AsTypeClassInstance(req.TypeClass, obj), as.Func2(metafp.TypeClassInstance.Check).ApplyLast(f))
+			if rhsType.IsInstanceOf(req.TypeClass) && checked.IsDefined() {
 				ins := DefinedInstance{
 					instanceOf: f,
 					pk:         f.Pkg,
 					name:       name,
-					instance:   metafp.AsTypeClassInstance(req.TypeClass, obj).Get(),
+					instance:   checked.Get(),
 					local:      false,
 
 					// 함수의 아규먼트는 Eq 가 포함 되어 있음.
